@@ -1,0 +1,96 @@
+//go:build verif
+
+// Verification hooks (build tag "verif" only): read-only views of the
+// type registries and scoped removal/installation of registry entries, used
+// by the external verification harness to simulate processes that know a
+// different set of error types or run a different code version.
+
+package errbase
+
+import "sort"
+
+// VerifRegistryKeys returns the sorted type keys of the five registries.
+func VerifRegistryKeys() (leafEnc, wrapEnc, leafDec, wrapDec, multiDec []string) {
+	for k := range leafEncoders {
+		leafEnc = append(leafEnc, string(k))
+	}
+	for k := range encoders {
+		wrapEnc = append(wrapEnc, string(k))
+	}
+	for k := range leafDecoders {
+		leafDec = append(leafDec, string(k))
+	}
+	for k := range decoders {
+		wrapDec = append(wrapDec, string(k))
+	}
+	for k := range multiCauseDecoders {
+		multiDec = append(multiDec, string(k))
+	}
+	sort.Strings(leafEnc)
+	sort.Strings(wrapEnc)
+	sort.Strings(leafDec)
+	sort.Strings(wrapDec)
+	sort.Strings(multiDec)
+	return
+}
+
+// VerifWithoutTypes removes the given keys from the decoder and encoder
+// registries and returns a function that restores them.
+func VerifWithoutTypes(keys []string) (restore func()) {
+	type saved struct {
+		le LeafEncoder
+		we WrapperEncoderWithMessageType
+		ld LeafDecoder
+		wd WrapperDecoder
+		md MultiCauseDecoder
+	}
+	sv := map[TypeKey]saved{}
+	for _, ks := range keys {
+		k := TypeKey(ks)
+		sv[k] = saved{leafEncoders[k], encoders[k], leafDecoders[k], decoders[k], multiCauseDecoders[k]}
+		delete(leafEncoders, k)
+		delete(encoders, k)
+		delete(leafDecoders, k)
+		delete(decoders, k)
+		delete(multiCauseDecoders, k)
+	}
+	return func() {
+		for k, s := range sv {
+			if s.le != nil {
+				leafEncoders[k] = s.le
+			}
+			if s.we != nil {
+				encoders[k] = s.we
+			}
+			if s.ld != nil {
+				leafDecoders[k] = s.ld
+			}
+			if s.wd != nil {
+				decoders[k] = s.wd
+			}
+			if s.md != nil {
+				multiCauseDecoders[k] = s.md
+			}
+		}
+	}
+}
+
+// VerifMigrations returns a copy of the migration registry (new key -> previous key).
+func VerifMigrations() map[string]string {
+	m := make(map[string]string, len(backwardRegistry))
+	for k, v := range backwardRegistry {
+		m[string(k)] = string(v)
+	}
+	return m
+}
+
+// VerifInstallMigrations replaces the migration registry and returns a
+// function that restores the previous one.
+func VerifInstallMigrations(m map[string]string) (restore func()) {
+	save := backwardRegistry
+	backwardRegistry = make(map[TypeKey]TypeKey, len(m))
+	for k, v := range m {
+		backwardRegistry[TypeKey(k)] = TypeKey(v)
+	}
+	return func() { backwardRegistry = save }
+}
